@@ -25,9 +25,9 @@ func init() {
 		Assumptions: []string{"reflection-based canon with normal forms N1-N6 is the oracle (DESIGN.md §1.3)", "small-scope hypothesis: codecs treat properties independently and recurse uniformly"},
 		Bound: func(tier string) string {
 			if tier == "thorough" {
-				return "levels 0,1,2,saturated; depth 2 over all shapes; depth 3 over q shapes on 4 hosts; plus the scale dimension: boundary-length strings (a 2/3/4-byte rune, quote or LF at every offset B-4..B+1 for B in 64,256,512,1024,4096) in 11 string positions, lists of 17/33/65 members, integers above 2^53, 7-decimal and tiny floats, instants at/before the epoch; an empty-but-non-nil neighbour next to every property; one identity in every pair of item properties; every decode is followed by two unrelated decodes before the comparison; IRI forms (IPv6 literals, explicit default ports, userinfo, non-ASCII path and host, upper-case scheme, empty fragment / query, percent-encoding in both cases) in every IRI-bearing position; generic type names; list forms (pointer to a list, lists of one, *IRIs, windows of one backing array); language tags with subtags / singletons / private use, untagged+tagged lists"
+				return "levels 0,1,2,saturated; depth 2 over all shapes; depth 3 over q shapes on 4 hosts; plus the scale dimension: boundary-length strings (a 2/3/4-byte rune, quote or LF at every offset B-4..B+1 for B in 64,256,512,1024,4096) in 11 string positions, lists of 17/33/65 members, integers above 2^53, 7-decimal and tiny floats, instants at/before the epoch; an empty-but-non-nil neighbour next to every property; one identity in every pair of item properties; every decode is followed by two unrelated decodes before the comparison; IRI forms (IPv6 literals, explicit default ports, userinfo, non-ASCII path and host, upper-case scheme, empty fragment / query, percent-encoding in both cases) in every IRI-bearing position; generic type names; list forms (pointer to a list, lists of one, *IRIs, windows of one backing array); language tags with subtags / singletons / private use, untagged+tagged lists; families added after round 5: DESIGN.md 8.11"
 			}
-			return "levels 0,1,saturated; depth 2 over q shapes at every item position; plus the scale dimension: boundary-length strings (a 2/3/4-byte rune, quote or LF at every offset B-4..B+1 for B in 64,256,512,1024,4096) in 11 string positions, lists of 17/33/65 members, integers above 2^53, 7-decimal and tiny floats, instants at/before the epoch; an empty-but-non-nil neighbour next to every property; one identity in every pair of item properties; every decode is followed by two unrelated decodes before the comparison; IRI forms (IPv6 literals, explicit default ports, userinfo, non-ASCII path and host, upper-case scheme, empty fragment / query, percent-encoding in both cases) in every IRI-bearing position; generic type names; list forms (pointer to a list, lists of one, *IRIs, windows of one backing array); language tags with subtags / singletons / private use, untagged+tagged lists"
+			return "levels 0,1,saturated; depth 2 over q shapes at every item position; plus the scale dimension: boundary-length strings (a 2/3/4-byte rune, quote or LF at every offset B-4..B+1 for B in 64,256,512,1024,4096) in 11 string positions, lists of 17/33/65 members, integers above 2^53, 7-decimal and tiny floats, instants at/before the epoch; an empty-but-non-nil neighbour next to every property; one identity in every pair of item properties; every decode is followed by two unrelated decodes before the comparison; IRI forms (IPv6 literals, explicit default ports, userinfo, non-ASCII path and host, upper-case scheme, empty fragment / query, percent-encoding in both cases) in every IRI-bearing position; generic type names; list forms (pointer to a list, lists of one, *IRIs, windows of one backing array); language tags with subtags / singletons / private use, untagged+tagged lists; families added after round 5: DESIGN.md 8.11"
 		},
 		DeadlineQuick: 6 * time.Minute, DeadlineThorough: 45 * time.Minute,
 		Run: c01Run,
